@@ -2,8 +2,8 @@ package main
 
 import (
 	"fmt"
-	"go/ast"
 	"go/token"
+	"reflect"
 	"sort"
 	"strings"
 
@@ -156,62 +156,47 @@ func (c *Ctx) tlPrimitives() {
 			continue
 		}
 		var mods []int64
-		allInstrs(f, func(_ *ssa.BasicBlock, i ssa.Instruction) {
-			if bo, ok := i.(*ssa.BinOp); ok && bo.Op == token.REM {
-				if k, ok := constInt(bo.Y); ok {
-					mods = append(mods, k)
+		// the alignment arithmetic may sit in the function or in a helper it calls (skipPadding, padTo4, ...)
+		closure := c.helperClosure(f, 2, nil)
+		for _, g := range closure {
+			allInstrs(g, func(_ *ssa.BasicBlock, i ssa.Instruction) {
+				if bo, ok := i.(*ssa.BinOp); ok && bo.Op == token.REM {
+					if k, ok := constInt(bo.Y); ok {
+						mods = append(mods, k)
+					}
 				}
-			}
-		})
+			})
+		}
 		c.check(len(mods) >= 1 && allEq(mods, 4), R, s.rel+"."+s.name+" pads to 4", f.Pos(), "padding modulus 4", fmt.Sprintf("%s.%s pads to a multiple of %v, TL requires 4", s.rel, s.name, mods))
 		// a writer that appends make([]byte, K - len%M) pads by the complement: K == M, and only
 		// when the remainder is not zero (otherwise a whole extra word is added)
-		allInstrs(f, func(b *ssa.BasicBlock, i ssa.Instruction) {
-			mk, ok := i.(*ssa.MakeSlice)
-			if !ok {
-				return
-			}
-			sub, ok := mk.Len.(*ssa.BinOp)
-			if !ok || sub.Op != token.SUB {
-				return
-			}
-			k, ok1 := constInt(sub.X)
-			rem, ok2 := sub.Y.(*ssa.BinOp)
-			if !ok1 || !ok2 || rem.Op != token.REM {
-				return
-			}
-			m, _ := constInt(rem.Y)
-			guarded := false
-			for _, ft := range factsAt(f, b) {
-				if cmp, ok := ft.Cond.(*ssa.BinOp); ok && cmp.X == ssa.Value(rem) {
-					if z, ok := constInt(cmp.Y); ok && z == 0 && (cmp.Op == token.NEQ) == ft.Truth {
-						guarded = true
+		for _, g := range closure {
+			g := g
+			allInstrs(g, func(b *ssa.BasicBlock, i ssa.Instruction) {
+				mk, ok := i.(*ssa.MakeSlice)
+				if !ok {
+					return
+				}
+				sub, ok := mk.Len.(*ssa.BinOp)
+				if !ok || sub.Op != token.SUB {
+					return
+				}
+				k, ok1 := constInt(sub.X)
+				rem, ok2 := sub.Y.(*ssa.BinOp)
+				if !ok1 || !ok2 || rem.Op != token.REM {
+					return
+				}
+				m, _ := constInt(rem.Y)
+				guarded := false
+				for _, ft := range factsAt(g, b) {
+					if cmp, ok := ft.Cond.(*ssa.BinOp); ok && cmp.X == ssa.Value(rem) {
+						if z, ok := constInt(cmp.Y); ok && z == 0 && (cmp.Op == token.NEQ) == ft.Truth {
+							guarded = true
+						}
 					}
 				}
-			}
-			c.check(k == m && guarded, R, s.rel+"."+s.name+" pads by the complement of the remainder", mk.Pos(), fmt.Sprintf("make(%d - len%%%d) under remainder != 0", k, m), fmt.Sprintf("%s.%s appends %d - len%%%d zero bytes (under remainder != 0: %v): the padding must be modulus minus remainder, and only when the remainder is not zero, otherwise the string does not end on a 4-byte boundary", s.rel, s.name, k, m, guarded))
-		})
-	}
-	// boolTrue#997275b5 / boolFalse#bc799737: the reflection decoder sets the value the id names
-	if f := c.fn("tl", "decode"); f != nil {
-		got := map[int64]bool{}
-		for _, cl := range callsTo(f, "reflect.Value.SetBool") {
-			v, ok := constBool(cl.Call.Args[1])
-			if !ok {
-				continue
-			}
-			for _, ft := range factsAt(f, cl.Block()) {
-				if bo, ok := ft.Cond.(*ssa.BinOp); ok && bo.Op == token.EQL && ft.Truth {
-					if k, ok := constInt(bo.Y); ok && k > 1<<24 {
-						got[k] = v
-					}
-				}
-			}
-		}
-		if len(got) > 0 {
-			tv, okT := got[0x997275b5]
-			fv, okF := got[0xbc799737]
-			c.check(okT && okF && tv && !fv && len(got) == 2, R, "tl.decode: boolTrue#997275b5 -> true, boolFalse#bc799737 -> false", f.Pos(), "both ids, right values", fmt.Sprintf("tl.decode maps Bool constructor ids to values as %v; lite_api.tl has boolTrue#997275b5 and boolFalse#bc799737", fmtBoolMap(got)))
+				c.check(k == m && guarded, R, s.rel+"."+s.name+" pads by the complement of the remainder", mk.Pos(), fmt.Sprintf("make(%d - len%%%d) under remainder != 0", k, m), fmt.Sprintf("%s.%s appends %d - len%%%d zero bytes (under remainder != 0: %v): the padding must be modulus minus remainder, and only when the remainder is not zero, otherwise the string does not end on a 4-byte boundary", s.rel, s.name, k, m, guarded))
+			})
 		}
 	}
 	// tags are written in the schema as big-endian hex and travel little-endian: both helpers of
@@ -270,112 +255,146 @@ func allEq(xs []int64, k int64) bool {
 // tlKindTable: per reflect.Kind, width and byte order on both sides of the reflective TL codec.
 func (c *Ctx) tlKindTable() {
 	const R = "E4b.tl-primitives"
-	p := c.pkg("tl")
-	if p == nil {
+	if c.pkg("tl") == nil {
 		return
 	}
 	want := map[string]string{"Uint32": "4 LE", "Int32": "4 LE", "Uint64": "8 LE", "Int64": "8 LE"}
-	for _, fname := range []string{"Marshal", "decode"} {
-		var fd *ast.FuncDecl
-		for _, f := range p.Syntax {
-			for _, d := range f.Decls {
-				if x, ok := d.(*ast.FuncDecl); ok && x.Name.Name == fname && x.Recv == nil {
-					fd = x
+	kinds := map[string]reflect.Kind{"Uint32": reflect.Uint32, "Int32": reflect.Int32, "Uint64": reflect.Uint64, "Int64": reflect.Int64}
+	// Decided by partial evaluation (E18): the code reachable only for kind K makes one buffer of W bytes and
+	// moves it through encoding/binary in one byte order; switch / if-chain / helpers make no difference.
+	binCall := func(q string) (order string, width int64, ok bool) {
+		for _, o := range [][2]string{{"encoding/binary.littleEndian.", "LE"}, {"encoding/binary.bigEndian.", "BE"}} {
+			if strings.HasPrefix(q, o[0]) {
+				m := strings.TrimPrefix(strings.TrimPrefix(q, o[0]), "Put")
+				switch m {
+				case "Uint16":
+					return o[1], 2, true
+				case "Uint32":
+					return o[1], 4, true
+				case "Uint64":
+					return o[1], 8, true
 				}
 			}
 		}
-		if fd == nil {
+		return "", 0, false
+	}
+	bswap := func(v int64) int64 {
+		u := uint32(v)
+		return int64(u>>24 | (u>>8)&0xff00 | (u<<8)&0xff0000 | u<<24)
+	}
+	for _, fname := range []string{"Marshal", "decode"} {
+		f := c.fn("tl", fname)
+		if f == nil {
 			c.bad(R, "tl."+fname+" kind switch", token.NoPos, "function not found")
 			continue
 		}
-		got := map[string]string{}
-		var boolConsts []string
-		ast.Inspect(fd.Body, func(n ast.Node) bool {
-			cl, ok := n.(*ast.CaseClause)
-			if !ok {
-				return true
-			}
-			var kinds []string
-			for _, e := range cl.List {
-				if sel, ok := e.(*ast.SelectorExpr); ok {
-					if id, ok := sel.X.(*ast.Ident); ok && id.Name == "reflect" {
-						kinds = append(kinds, sel.Sel.Name)
-					}
-				}
-			}
-			if len(kinds) == 0 {
-				return true
-			}
-			width, order := "", ""
-			ast.Inspect(cl, func(m ast.Node) bool {
-				call, ok := m.(*ast.CallExpr)
-				if !ok {
-					return true
-				}
-				if id, ok := call.Fun.(*ast.Ident); ok && id.Name == "make" && len(call.Args) == 2 && width == "" {
-					if lit, ok := call.Args[1].(*ast.BasicLit); ok {
-						width = lit.Value
-					}
-				}
-				if sel, ok := call.Fun.(*ast.SelectorExpr); ok {
-					if inner, ok := sel.X.(*ast.SelectorExpr); ok {
-						if strings.HasPrefix(sel.Sel.Name, "PutUint") || strings.HasPrefix(sel.Sel.Name, "Uint") {
-							o := map[string]string{"LittleEndian": "LE", "BigEndian": "BE"}[inner.Sel.Name]
-							if order == "" {
-								order = o
-							} else if order != o {
-								order = "mixed"
-							}
-							for _, a := range call.Args {
-								if lit, ok := a.(*ast.BasicLit); ok && strings.HasPrefix(lit.Value, "0x") {
-									boolConsts = append(boolConsts, o+":"+strings.ToLower(lit.Value))
-								}
-							}
-						}
-					}
-				}
-				if lit, ok := m.(*ast.BasicLit); ok && strings.HasPrefix(lit.Value, "0x") && len(lit.Value) == 10 {
-					_ = lit
-				}
-				return true
-			})
-			// case literals inside nested switch (decoder Bool)
-			for _, k := range kinds {
-				got[k] = strings.TrimSpace(width + " " + order)
-			}
-			if contains(kinds, "Bool") {
-				ast.Inspect(cl, func(m ast.Node) bool {
-					if inner, ok := m.(*ast.CaseClause); ok && inner != cl {
-						for _, e := range inner.List {
-							if lit, ok := e.(*ast.BasicLit); ok && strings.HasPrefix(lit.Value, "0x") {
-								boolConsts = append(boolConsts, "LE:"+strings.ToLower(lit.Value))
-							}
-						}
-					}
-					return true
-				})
-			}
-			return true
-		})
 		for _, k := range []string{"Uint32", "Int32", "Uint64", "Int64"} {
-			c.check(got[k] == want[k], R, "tl."+fname+" kind "+k, fd.Pos(), k+" is "+want[k], fmt.Sprintf("tl.%s handles reflect.%s as %q, TL requires %s", fname, k, got[k], want[k]))
+			orders, widths := map[string]bool{}, map[int64]bool{}
+			seenAl := map[*ssa.Alloc]bool{}
+			for _, oi := range c.kindSpecific(f, int64(kinds[k])) {
+				switch x := oi.in.(type) {
+				case *ssa.Call:
+					if o, w, ok := binCall(callQName(&x.Call)); ok {
+						orders[o] = true
+						widths[w] = true
+					}
+				case *ssa.MakeSlice:
+					if n, ok := oi.owner.val(x.Len); ok {
+						widths[n] = true
+					} else {
+						widths[-1] = true
+					}
+				case *ssa.Slice:
+					if al, ok := x.X.(*ssa.Alloc); ok && al.Heap && al.Comment == "makeslice" && !seenAl[al] {
+						seenAl[al] = true
+						if n, ok := arrayLen(al.Type()); ok {
+							widths[n] = true
+						}
+					}
+				}
+			}
+			got := ""
+			if len(widths) == 1 && len(orders) == 1 {
+				for w := range widths {
+					for o := range orders {
+						got = fmt.Sprintf("%d %s", w, o)
+					}
+				}
+			} else {
+				got = fmt.Sprintf("widths %v orders %v", keysOfInt(widths), keysOfBool(orders))
+			}
+			c.check(got == want[k], R, "tl."+fname+" kind "+k, f.Pos(), k+" is "+want[k]+" (partial evaluation for this kind)", fmt.Sprintf("tl.%s handles reflect.%s as %q, TL requires %s", fname, k, got, want[k]))
 		}
-		// Bool ids after folding byte order: wire bytes must be LE(0x997275b5) / LE(0xbc799737)
+		// Bool ids after folding byte order: wire bytes must be LE(0x997275b5) / LE(0xbc799737), and the id
+		// named boolTrue stands for true on both sides
 		wire := map[string]bool{}
-		for _, bc := range boolConsts {
-			parts := strings.SplitN(bc, ":", 2)
-			v := strings.TrimPrefix(parts[1], "0x")
-			if len(v) != 8 {
+		val := map[string]string{}
+		addWire := func(order string, id int64, truth string) {
+			if order == "LE" {
+				id = bswap(id)
+			}
+			w := fmt.Sprintf("%08x", uint32(id))
+			wire[w] = true
+			if truth != "" {
+				if old, ok := val[w]; ok && old != truth {
+					truth = "both"
+				}
+				val[w] = truth
+			}
+		}
+		for _, oi := range c.kindSpecific(f, int64(reflect.Bool)) {
+			cl, ok := oi.in.(*ssa.Call)
+			if !ok {
 				continue
 			}
-			if parts[0] == "BE" {
-				wire[v] = true // bytes as written
-			} else {
-				wire[v[6:8]+v[4:6]+v[2:4]+v[0:2]] = true
+			q := callQName(&cl.Call)
+			if o, w, ok := binCall(q); ok && w == 4 && strings.Contains(q, "Put") {
+				id, ok := oi.owner.val(cl.Call.Args[len(cl.Call.Args)-1])
+				if !ok {
+					wire["?"] = true
+					continue
+				}
+				truth := ""
+				for _, ft := range factsAt(oi.owner.fn, cl.Block()) {
+					if ic := callOf(ft.Cond); ic != nil && callQName(&ic.Call) == "reflect.Value.Bool" {
+						truth = fmt.Sprint(ft.Truth)
+					}
+				}
+				addWire(o, id, truth)
+			}
+			if q == "reflect.Value.SetBool" {
+				v, ok := constBool(cl.Call.Args[1])
+				if !ok {
+					continue
+				}
+				for _, ft := range factsAt(oi.owner.fn, cl.Block()) {
+					bo, ok := ft.Cond.(*ssa.BinOp)
+					if !ok || bo.Op != token.EQL || !ft.Truth {
+						continue
+					}
+					x, y := bo.X, bo.Y
+					if _, isC := oi.owner.val(x); isC {
+						x, y = y, x
+					}
+					id, ok := oi.owner.val(y)
+					src := callOf(stripConv(x))
+					if !ok || src == nil {
+						continue
+					}
+					if o, w, ok := binCall(callQName(&src.Call)); ok && w == 4 {
+						addWire(o, id, fmt.Sprint(v))
+					}
+				}
 			}
 		}
 		okBool := wire["b5757299"] && wire["379779bc"] && len(wire) == 2
-		c.check(okBool, R, "tl."+fname+" Bool constructor ids", fd.Pos(), "boolTrue#997275b5 / boolFalse#bc799737 little-endian on the wire", fmt.Sprintf("tl.%s uses Bool wire bytes %v; TL requires b5757299 (true) and 379779bc (false)", fname, keysOfBool(wire)))
+		c.check(okBool, R, "tl."+fname+" Bool constructor ids", f.Pos(), "boolTrue#997275b5 / boolFalse#bc799737 little-endian on the wire", fmt.Sprintf("tl.%s uses Bool wire bytes %v; TL requires b5757299 (true) and 379779bc (false)", fname, keysOfBool(wire)))
+		okVal := val["b5757299"] == "true" && val["379779bc"] == "false"
+		key := "tl." + fname + ": boolTrue#997275b5 <-> true, boolFalse#bc799737 <-> false"
+		if fname == "decode" {
+			key = "tl.decode: boolTrue#997275b5 -> true, boolFalse#bc799737 -> false"
+		}
+		c.check(okVal, R, key, f.Pos(), "both ids, right values", fmt.Sprintf("tl.%s pairs Bool wire ids with values as %v; lite_api.tl has boolTrue#997275b5 and boolFalse#bc799737", fname, val))
 	}
 	// vector count: 4 bytes little-endian on both sides
 	for _, fn := range []string{"encodeVector", "decodeVector"} {
@@ -494,4 +513,13 @@ func fmtBoolMap(m map[int64]bool) string {
 		out = append(out, fmt.Sprintf("%08x->%v", k, m[k]))
 	}
 	return strings.Join(out, " ")
+}
+
+func keysOfInt(m map[int64]bool) []int64 {
+	var ks []int64
+	for k := range m {
+		ks = append(ks, k)
+	}
+	sort.Slice(ks, func(i, j int) bool { return ks[i] < ks[j] })
+	return ks
 }
